@@ -302,6 +302,15 @@ def check_decl(dc, st, tier, only=None):
             falsy[fname] = []
         elif k == 'opt':
             falsy[fname] = None
+    # a described field given by keyword is PINNED to that value, whatever the computation would yield
+    nodes = dict(dc.P['fields'])
+    for fname, node in dc.P['fields']:
+        d = node.get('desc')
+        if d and d['k'] == 'autolength':
+            tracked = [7, 8] if nodes[d['of']]['k'] == 'seq' else b'ab'
+            check_kw(dc, st, {fname: 5}, dflt, 'described keyword')
+            check_kw(dc, st, {fname: 5, d['of']: tracked}, dflt, 'described keyword')
+            check_kw(dc, st, {fname: 0, d['of']: tracked}, dflt, 'described keyword')
     for fname, v in falsy.items():
         check_kw(dc, st, {fname: v}, dflt, 'falsy keyword')
     if len(falsy) > 1:
